@@ -160,11 +160,13 @@ def valid_ts(T):
                     req(a[0] <= b[0], "edge-order-left")
                     req(a[0] != b[0], "edge-duplicate")
         # disjoint child intervals
-        for i in range(E):
-            for j in range(i + 1, E):
-                a, b = rows[i], rows[j]
-                if a[3] == b[3]:
-                    req(a[1] <= b[0] or b[1] <= a[0], "edge-child-intervals-overlap")
+        by_child = {}
+        for e in rows:
+            by_child.setdefault(e[3], []).append((e[0], e[1]))
+        for ivs in by_child.values():       # pairwise disjoint <=> disjoint when ordered by left
+            ivs.sort()
+            for a, b in zip(ivs, ivs[1:]):
+                req(a[1] <= b[0], "edge-child-intervals-overlap")
     # sites
     for (pos,) in T["sites"]:
         req(isnum(pos), "site-position-nonfinite")
@@ -232,7 +234,8 @@ def valid_ts(T):
         if all(0 <= e < E for e in O) and sorted(O) != list(range(E)):
             # Input class of finding F1: every id that occurs more than once ends at L (repeats
             # of an edge ending before L are met by the sweep itself, not by its trailing loop).
-            rep = [e for e in set(O) if O.count(e) > 1]
+            import collections
+            rep = [e for e, k in collections.Counter(O).items() if k > 1]
             atL = all(T["edges"][e][1] == L for e in rep)
             req(False, "index-removal-repeats-only-at-L" if atL else "index-removal-perm")
         if sane and sorted(I) == list(range(E)):
@@ -334,7 +337,8 @@ def id_values(n):
 
 
 def coord_values(L):
-    return [-1.0, 0.0, math.nextafter(L, 0.0), L, L + 1.0, "nan", "inf", "-inf", "unk"]
+    return [-1.0, math.nextafter(0.0, -1.0), 0.0, math.nextafter(0.0, 1.0), math.nextafter(L, 0.0), L,
+            math.nextafter(L, math.inf), L + 1.0, "nan", "inf", "-inf", "unk"]
 
 
 def time_values(cur, tmax):
@@ -454,6 +458,28 @@ def single_departures(T, rng, rows_per_col=3):
             v0 = T["migs"][row - 1][5]
             out.append(("migs[%d].5=time:previous=" % row, setcell("migs", row, 5, v0)))
             out.append(("migs[%d].5=time:previous-eps" % row, setcell("migs", row, 5, math.nextafter(v0, -math.inf))))
+    # node flags with application-defined bits: a sample stays a sample, a non-sample a non-sample
+    for row in pick_rows(len(T["nodes"]), rng, rows_per_col):
+        for v in (1 | 1 << 16, 1 | 1 << 19, 1 << 16, 2, 0xFFFFFFFF, 0xFFFFFFFE):
+            if v != T["nodes"][row][3]:
+                out.append(("nodes[%d].3=flags:%#x" % (row, v), setcell("nodes", row, 3, v)))
+    # intervals one ulp wide, and times one ulp apart
+    for tab in ("edges", "migs"):
+        for row in pick_rows(len(T[tab]), rng, rows_per_col):
+            l, r = T[tab][row][0], T[tab][row][1]
+            if isnum(l) and isnum(r):
+                out.append(("%s[%d].1=coord:left+ulp" % (tab, row), setcell(tab, row, 1, math.nextafter(l, math.inf))))
+                out.append(("%s[%d].0=coord:right-ulp" % (tab, row), setcell(tab, row, 0, math.nextafter(r, -math.inf))))
+    for row in pick_rows(len(T["edges"]), rng, rows_per_col):
+        l, r, p, c = T["edges"][row]
+        if tnode(p) is not None and tnode(c) is not None:
+            out.append(("nodes[child of edge %d].0=time:parent-time-ulp" % row, setcell("nodes", c, 0, math.nextafter(tnode(p), -math.inf))))
+            out.append(("nodes[child of edge %d].0=time:parent-time+ulp" % row, setcell("nodes", c, 0, math.nextafter(tnode(p), math.inf))))
+    for row in range(1, len(T["sites"])):
+        v0 = T["sites"][row - 1][0]
+        if isnum(v0):
+            out.append(("sites[%d].0=coord:previous+ulp" % row, setcell("sites", row, 0, math.nextafter(v0, math.inf))))
+            out.append(("sites[%d].0=coord:previous-ulp" % row, setcell("sites", row, 0, math.nextafter(v0, -math.inf))))
     # individual parents
     NI = len(T["inds"])
     for row in pick_rows(NI, rng, rows_per_col):
@@ -605,15 +631,44 @@ def dec(v):
     return float(v)
 
 
-def build_tc(T):
-    """Columns are written with set_columns (add_row refuses ids < -1 and > 2^31-2 at the
-    Python level; set_columns stores any int32 / double, which is what a file can contain)."""
+def as_view(a, layout):
+    """The same values as a non-contiguous view of the exact dtype (no conversion copy happens in
+    the C module): every second element of a buffer, a reversed view, a column of a 2-D array."""
     import numpy as np
+    n = len(a)
+    if layout == "strided":
+        buf = np.zeros(2 * n + 1, dtype=a.dtype)
+        buf[1:2 * n:2] = a
+        v = buf[1:2 * n:2]
+    elif layout == "reversed":
+        buf = a[::-1].copy()
+        v = buf[::-1]
+    elif layout == "col2d":
+        m = np.zeros((n, 3), dtype=a.dtype)
+        m[:, 1] = a
+        v = m[:, 1]
+    else:
+        return a
+    assert n < 2 or not v.flags["C_CONTIGUOUS"] or layout == "reversed" and n < 2
+    return v
+
+
+def build_tc(T, layout=None):
     import tskit
     tc = tskit.TableCollection(1.0)
+    fill_tc(tc, T, layout)
+    return tc
+
+
+def fill_tc(tc, T, layout=None, keep_index=False):
+    """Columns are written with set_columns (add_row refuses ids < -1 and > 2^31-2 at the
+    Python level; set_columns stores any int32 / double, which is what a file can contain).
+    Works on an existing TableCollection too (error-then-reuse)."""
+    import numpy as np
+    import tskit
     tc.sequence_length = dec(T["L"])
-    i32 = lambda xs: np.array(list(xs), dtype=np.int32)          # noqa: E731
-    f64 = lambda xs: np.array([dec(x) for x in xs], dtype=np.float64)   # noqa: E731
+    i32 = lambda xs: as_view(np.array(list(xs), dtype=np.int32), layout)          # noqa: E731
+    f64 = lambda xs: as_view(np.array([dec(x) for x in xs], dtype=np.float64), layout)   # noqa: E731
 
     def ragged(chunks):
         data = b"".join(chunks)
@@ -632,7 +687,7 @@ def build_tc(T):
         flags=np.zeros(nI, dtype=np.uint32), location=np.full(nI, 1.5), location_offset=np.arange(nI + 1, dtype=np.uint64),
         parents=i32(x for p in T["inds"] for x in p), parents_offset=par_off, metadata=md, metadata_offset=mdo)
     md, mdo = ragged([b"n" * (j % 3) for j in range(len(T["nodes"]))])
-    tc.nodes.set_columns(flags=np.array(col("nodes", 3), dtype=np.uint32), time=f64(col("nodes", 0)),
+    tc.nodes.set_columns(flags=as_view(np.array(col("nodes", 3), dtype=np.uint32), layout), time=f64(col("nodes", 0)),
                          population=i32(col("nodes", 1)), individual=i32(col("nodes", 2)), metadata=md, metadata_offset=mdo)
     md, mdo = ragged([b"e"] * len(T["edges"]))
     tc.edges.set_columns(left=f64(col("edges", 0)), right=f64(col("edges", 1)), parent=i32(col("edges", 2)),
@@ -653,6 +708,8 @@ def build_tc(T):
     if T["index"] is not None:
         tc.indexes = tskit.TableCollectionIndexes(
             edge_insertion_order=i32(T["index"]["I"]), edge_removal_order=i32(T["index"]["O"]))
+    elif not keep_index:
+        tc.drop_index()
     return tc
 
 
@@ -680,10 +737,58 @@ def classify(e):
     return {"v": "other:" + type(e).__name__, "msg": str(e)[:120]}
 
 
-def run_gate(T):
+def gate_once(tc):
+    """tree_sequence() on tc -> verdict (+ trees and sample list when accepted)."""
+    o = {}
+    try:
+        ts = tc.tree_sequence()
+        o["ts"] = {"v": "ok", "num_trees": ts.num_trees}
+        o["trees"] = [[t.interval.left, t.interval.right, sorted([c, p] for c, p in t.parent_dict.items())]
+                      for t in ts.trees()]
+        o["samples"] = [int(u) for u in ts.samples()]
+    except Exception as e:   # noqa: BLE001
+        o["ts"] = classify(e)
+    return o
+
+
+def run_reuse(case):
+    """error-then-reuse: a rejected tree_sequence() (and a rejected load of the same tables),
+    then the SAME TableCollection object is repaired column by column and asked again; it must
+    behave like a fresh TableCollection holding the same tables and the same index arrays."""
+    import tskit
+    bad, good = case["bad"], case["T"]
+    tc = build_tc(bad)
+    first = gate_once(tc)
+    d = os.environ.get("VERIF_SCRATCH", common.SCRATCH_ROOT)
+    if tc.has_index():
+        fd, path = tempfile.mkstemp(prefix="c02u-", suffix=".trees", dir=d)
+        os.close(fd)
+        try:
+            tc.dump(path)
+            try:
+                tskit.load(path)
+            except Exception:   # noqa: BLE001
+                pass
+        finally:
+            os.unlink(path)
+    fill_tc(tc, good, keep_index=True)          # repair in place; whatever index the object holds stays
+    idx = None
+    if tc.has_index():
+        ix = tc.indexes
+        idx = {"I": [int(x) for x in ix.edge_insertion_order], "O": [int(x) for x in ix.edge_removal_order]}
+    second = gate_once(tc)
+    third = gate_once(tc)                        # and once more on the same object
+    G = copyT(good)
+    G["index"] = idx
+    fresh = gate_once(build_tc(G))
+    return {"first": first["ts"], "index_after_repair": idx, "ts": second["ts"], "trees": second.get("trees"),
+            "samples": second.get("samples"), "again": third, "fresh": fresh}
+
+
+def run_gate(T, layout=None):
     """tree_sequence() and dump()->load() on the tables T, in this process."""
     import tskit
-    tc = build_tc(T)
+    tc = build_tc(T, layout)
     had_index = tc.has_index()
     before = tc.asdict()
     if not had_index:
@@ -697,6 +802,8 @@ def run_gate(T):
         for t in ts.trees():
             trees.append([t.interval.left, t.interval.right, sorted([c, p] for c, p in t.parent_dict.items())])
         obs["trees"] = trees
+        obs["samples"] = [int(u) for u in ts.samples()]
+        obs["num_samples"] = int(ts.num_samples)
     except Exception as e:   # noqa: BLE001  (every exception class is an observation here)
         obs["ts"] = classify(e)
     after = tc.asdict()
@@ -704,7 +811,7 @@ def run_gate(T):
         after.pop("indexes")
     obs["unchanged"] = snapshot(after) == before
     # file path: the same tables written by dump() and read by tskit.load()
-    tc2 = build_tc(T)
+    tc2 = build_tc(T, layout)
     pre = None
     if not tc2.has_index():
         try:
@@ -863,12 +970,16 @@ class Gate(Family):
 
     def observe(self, case):
         T = case["T"]
+        if "bad" in case:
+            return run_reuse(case)
         if not isnum(T["L"]):
             return run_gate_forked(T)
-        return run_gate(T)
+        return run_gate(T, case.get("layout"))
 
     def oracle(self, case, obs):
         T = case["T"]
+        if "bad" in case:
+            return self.oracle_reuse(case, obs)
         bad = valid_ts(T)
         cls = "+".join(sorted(bad))
         out = []
@@ -882,6 +993,9 @@ class Gate(Family):
                 exp = trees_by_definition(T)
                 if obs["ts"]["num_trees"] != len(exp) or obs["trees"] != exp:
                     out.append(("tree-mismatch", "trees %r differ from the definition %r" % (obs["trees"], exp)))
+                exp_s = [i for i, n in enumerate(T["nodes"]) if n[3] & 1]
+                if obs.get("samples") != exp_s or ("num_samples" in obs and obs["num_samples"] != len(exp_s)):
+                    out.append(("samples-mismatch", "samples %r, flags & 1 gives %r" % (obs.get("samples"), exp_s)))
                 for d in documented_not_checked(T):
                     out.append(("documented-not-checked:" + d,
                                 "accepted although the documented requirement '%s' does not hold" % d))
@@ -911,8 +1025,35 @@ class Gate(Family):
                 out.append(("load-unindexed-wrong-exception:" + rv, "not a LibraryError: %s" % obs["load_raw"].get("msg")))
         return out
 
+    def oracle_reuse(self, case, obs):
+        out = []
+        G = copyT(case["T"])
+        G["index"] = obs["index_after_repair"]
+        bad = valid_ts(G)
+        if valid_ts(case["bad"]) and obs["first"]["v"] == "ok":
+            out.append(("accepted-invalid:" + "+".join(sorted(valid_ts(case["bad"]))), "first call accepted invalid tables"))
+        v = obs["ts"]["v"]
+        if v == "ok" and bad:
+            out.append(("reuse-accepted-invalid:" + "+".join(sorted(bad)), "after repair accepted tables violating %s" % bad))
+        elif v == "LibraryError" and not bad:
+            out.append(("reuse-rejected-valid:" + obs["ts"]["err"], "repaired tables on a reused object rejected: %s" % obs["ts"]["err"]))
+        elif v not in ("ok", "LibraryError"):
+            out.append(("reuse-wrong-exception:" + v, str(obs["ts"].get("msg"))))
+        if v == "ok" and not bad:
+            if obs["trees"] != trees_by_definition(G):
+                out.append(("reuse-tree-mismatch", "trees after repair differ from the definition"))
+            if obs["samples"] != [i for i, n in enumerate(G["nodes"]) if n[3] & 1]:
+                out.append(("reuse-samples-mismatch", "samples after repair"))
+        fresh, again = obs["fresh"], obs["again"]
+        for name, o in (("fresh", fresh), ("again", again)):
+            if o["ts"] != obs["ts"] or o.get("trees") != obs.get("trees") or o.get("samples") != obs.get("samples"):
+                out.append(("reuse-differs-from-" + name, "reused object %r vs %s %r" % (obs["ts"], name, o["ts"])))
+        return out
+
     def coq_check(self, case, obs):
         T = case["T"]
+        if "bad" in case:
+            return None
         if "aborted" in obs or obs["ts"]["v"].startswith("other"):
             return None
         if len(T["nodes"]) > 12 or len(T["edges"]) > 16:
@@ -943,6 +1084,9 @@ class Gate(Family):
 
     def describe(self, case, obs):
         T = case["T"]
+        if "bad" in case:
+            return {"first": obs["first"].get("err", obs["first"]["v"]), "second": obs["ts"].get("err", obs["ts"]["v"]),
+                    "index_after_repair": "kept" if obs["index_after_repair"] else "none"}
         if "aborted" in obs:
             verdict = "aborted"
         elif obs["ts"]["v"] == "ok":
@@ -1081,7 +1225,78 @@ class F1Scope(Gate):
                     yield {"T": X, "edits": ["index:user"]}
 
 
-FAMILIES = [Valid, Stream, F1Scope]
+class Layout(Gate):
+    """array layout: every column (and the index arrays) handed over as a non-contiguous view of
+    the exact dtype — every second element of a buffer, a reversed view, a column of a 2-D
+    array — must give the result of the equivalent contiguous arrays (i.e. what valid_ts says)."""
+    name = "layout"
+
+    def generate(self, rng, tier):
+        n = 10 if tier == "quick" else 60
+        for T in base_tables(rng, n, small=True):
+            B = copyT(T)
+            B["index"] = make_index(T, rng)
+            deps = single_departures(B, rng, 1)
+            for layout in ("strided", "reversed", "col2d"):
+                yield {"T": copyT(T), "edits": [], "layout": layout}
+                yield {"T": copyT(B), "edits": ["index:user-consistent"], "layout": layout}
+                for label, f in rng.sample(deps, min(len(deps), 4 if tier == "quick" else 10)):
+                    X = copyT(B)
+                    f(X)
+                    yield {"T": X, "edits": [label], "layout": layout}
+
+
+class Reuse(Gate):
+    """error then reuse: tree_sequence() on tables with one departure (rejected), the same
+    TableCollection repaired in place, tree_sequence() again (twice) — compared with the data
+    model and with a fresh TableCollection holding the same tables and index arrays."""
+    name = "reuse"
+
+    def generate(self, rng, tier):
+        n = 8 if tier == "quick" else 40
+        for T in pick_bases(rng, n):
+            for explicit in (False, True):
+                G = copyT(T)
+                if explicit:
+                    G["index"] = make_index(T, rng)
+                deps = single_departures(G, rng, 1)
+                for label, f in rng.sample(deps, min(len(deps), 12 if tier == "quick" else 40)):
+                    X = copyT(G)
+                    f(X)
+                    yield {"T": copyT(G), "bad": X, "edits": [label]}
+
+
+class Big(Gate):
+    """sizes (thorough only): one node with 2**16 + 1 children, i.e. > 2**16 edges and index
+    entries beyond the 16-bit range, with a consistent user index, a built index, and a removal
+    order that repeats its last entry (the F1 class)."""
+    name = "big"
+    timeout = 300.0
+    workers = 3
+
+    def generate(self, rng, tier):
+        if tier == "quick":
+            return
+        n = 2 ** 16 + 1
+        nodes = [[0.0, -1, -1, 1 if i % 2 else 1 | 1 << 16] for i in range(n)] + [[2.0, -1, -1, 0]]
+        edges = [[0.0, 8.0, n, i] for i in range(n)]
+        edges[7] = [0.0, 4.0, n, 7]
+        edges.insert(8, [4.0, 8.0, n, 7])
+        T = {"L": 8.0, "npop": 0, "inds": [], "nodes": nodes, "edges": edges, "sites": [[4.0]],
+             "muts": [[0, 7, -1, 1.0]], "migs": [], "index": None}
+        yield {"T": copyT(T), "edits": ["big"]}
+        X = copyT(T)
+        X["index"] = make_index(T, rng)
+        yield {"T": X, "edits": ["big", "index:user-consistent"], "layout": "strided"}
+        Y = copyT(X)
+        Y["index"]["O"][-1] = Y["index"]["O"][-2]
+        yield {"T": Y, "edits": ["big", "index.O[last]=copy[last-1]"]}
+        Z = copyT(X)
+        Z["index"]["I"][2 ** 16] = 2 ** 16 + 5
+        yield {"T": Z, "edits": ["big", "index.I[2^16]=out-of-range"]}
+
+
+FAMILIES = [Valid, Stream, F1Scope, Layout, Reuse, Big]
 
 NOT_COVERED = [
     "migration source population matching the ancestors' population (documented, not checked by the gate, not evaluated "
